@@ -1000,7 +1000,8 @@ def _format_value(value):
   try:
     if parse_value(literal) == value:
       return literal
-  except SyntaxError:
+  except Exception:  # pylint: disable=broad-except
+    # The `repr` doesn't parse, or the value can't be compared for equality.
     pass
   return None
 
